@@ -6,233 +6,13 @@
 #include "accessors.h"
 #include "dec_common.h"
 #include "framegen.h"
+#include "tecmp_oracle.h"
 
 using namespace vf;
 using namespace wire;
+using namespace vf::tec;
 
 namespace {
-
-enum Want
-{
-    W_NONE,      // must yield no packet
-    W_PACKETS,   // must yield exactly the expected packets
-    W_NONE_OR_CORRECT,  // statement does not fix it: either nothing or the expected packets
-    W_SAFETY_ONLY
-};
-
-struct ExpPacket
-{
-    int kind;  // 0 can-like, 1 lin, 2 cm, 3 bus entry
-    uint32_t interfaceId;
-    uint32_t id;  // arbitration id & 0x1FFFFFFF / lin id
-    Bytes data;
-    bool hasChecksum = false;
-    uint8_t checksum = 0;
-    std::string serial, hw, sw;
-    uint32_t messagesTotal = 0, errorsTotal = 0;
-};
-
-struct TCase
-{
-    Tecmp h;
-    Bytes payload;
-    Want want = W_NONE;
-    std::vector<ExpPacket> exp;
-    std::string what;
-    uint64_t sig = 0;
-};
-
-void fillHeader(Tecmp& t, Rng& r)
-{
-    t.device = r.byte();
-    t.counter = static_cast<uint16_t>(r.next());
-    t.version = r.byte();
-    t.reserved = static_cast<uint16_t>(r.next());
-    t.deviceFlags = static_cast<uint16_t>(r.next());
-    t.interfaceId = r.chance(1, 6) ? r.pick<uint32_t>({0, 1, 0xFFFFFFFFu, 0x80000000u}) : static_cast<uint32_t>(r.next());
-    t.timestamp = r.chance(1, 6) ? r.pick<uint64_t>({0, 1, 0xFFFFFFFFFFFFFFFFULL}) : r.next();
-    t.dataFlags = static_cast<uint16_t>(r.next());
-}
-
-// independent parse: what must come out of this frame
-void expectation(TCase& tc)
-{
-    const Bytes& p = tc.payload;
-    const Tecmp& h = tc.h;
-    tc.exp.clear();
-    bool supportedStatus = (h.msgType == TMT_CM_STATUS || h.msgType == TMT_BUS_STATUS);
-    bool supportedData = h.msgType == TMT_DATA && (h.dataType == TDT_CAN || h.dataType == TDT_CANFD || h.dataType == TDT_LIN);
-    if (h.payloadLength != p.size())
-    {
-        // declared length larger than what is there: does not fit -> nothing; smaller: trailing bytes -> safety oracle only
-        tc.want = h.payloadLength > p.size() ? W_NONE : W_SAFETY_ONLY;
-        return;
-    }
-    if (!supportedStatus && !supportedData)
-    {
-        tc.want = W_NONE;
-        return;
-    }
-    if (p.empty())
-    {
-        tc.want = W_NONE;  // nothing to convert
-        return;
-    }
-    if (supportedData && (h.dataType == TDT_CAN || h.dataType == TDT_CANFD))
-    {
-        if (p.size() < 5 || static_cast<size_t>(p[4]) > p.size() - 5)
-        {
-            tc.want = W_NONE;
-            return;
-        }
-        ExpPacket e;
-        e.kind = 0;
-        e.interfaceId = h.interfaceId;
-        e.id = get32(p.data()) & 0x1FFFFFFF;
-        e.data.assign(p.begin() + 5, p.begin() + 5 + p[4]);
-        tc.exp.push_back(e);
-        // data lengths beyond what the bus admits are not "well-formed messages of a supported kind"
-        size_t limit = h.dataType == TDT_CAN ? 8 : 64;
-        tc.want = p[4] <= limit ? W_PACKETS : W_NONE_OR_CORRECT;
-        return;
-    }
-    if (supportedData)
-    {
-        if (p.size() < 2 || static_cast<size_t>(p[1]) > p.size() - 2)
-        {
-            tc.want = W_NONE;
-            return;
-        }
-        ExpPacket e;
-        e.kind = 1;
-        e.interfaceId = h.interfaceId;
-        e.id = p[0] & 0x3F;
-        e.data.assign(p.begin() + 2, p.begin() + 2 + p[1]);
-        if (p.size() > 2u + p[1])
-        {
-            e.hasChecksum = true;
-            e.checksum = p[2 + p[1]];
-        }
-        tc.exp.push_back(e);
-        tc.want = p[1] <= 8 ? W_PACKETS : W_NONE_OR_CORRECT;
-        return;
-    }
-    if (h.msgType == TMT_CM_STATUS)
-    {
-        if (p.size() < 36)
-        {
-            tc.want = W_NONE;
-            return;
-        }
-        ExpPacket e;
-        e.kind = 2;
-        e.interfaceId = h.interfaceId;
-        e.serial = std::to_string(get32(p.data() + 8));
-        e.sw = "v" + std::to_string(p[13]) + "." + std::to_string(p[14]) + "." + std::to_string(p[15]);
-        e.hw = "v" + std::to_string(p[16]) + "." + std::to_string(p[17]);
-        tc.exp.push_back(e);
-        tc.want = h.dataType == 0 ? W_PACKETS : W_NONE_OR_CORRECT;
-        return;
-    }
-    // bus status
-    if (p.size() < 12)
-    {
-        tc.want = W_NONE;
-        return;
-    }
-    for (size_t off = 12; off + 12 <= p.size(); off += 12)
-    {
-        ExpPacket e;
-        e.kind = 3;
-        e.interfaceId = get32(p.data() + off);
-        e.messagesTotal = get32(p.data() + off + 4);
-        e.errorsTotal = get32(p.data() + off + 8);
-        tc.exp.push_back(e);
-    }
-    bool tail = (p.size() - 12) % 12 != 0;  // an incomplete entry at the end: not well-formed
-    tc.want = (h.dataType == 0 && !tail) ? W_PACKETS : W_NONE_OR_CORRECT;
-}
-
-std::string comparePacket(const ASAM::CMP::Packet& p, const Tecmp& h, const ExpPacket& e, std::string& detail)
-{
-    using PT = ASAM::CMP::PayloadType;
-    PacketSnap s = snapPacket(p);
-    auto fail = [&](const char* f, const std::string& d) {
-        detail = d + "; packet " + s.str();
-        return std::string(f);
-    };
-    if (!s.valid)
-        return fail("converted-packet-invalid", "packet is not valid");
-    if (s.device != h.device)
-        return fail("device-id", "TECMP device id byte is " + std::to_string(h.device));
-    if (s.ts != h.timestamp)
-        return fail("timestamp", "TECMP timestamp is " + std::to_string(h.timestamp));
-    if (s.interfaceId != e.interfaceId)
-        return fail("interface-id", "expected interface id " + std::to_string(e.interfaceId));
-    const ASAM::CMP::Payload& pl = p.getPayload();
-    uint32_t t = pl.getType().getType();
-    AccessResult ar;
-    accessTyped(ar, pl);
-    if (!ar.badView.empty())
-        return fail("converted-packet-view-outside", ar.detail);
-    switch (e.kind)
-    {
-        case 0:
-        {
-            if (t != PT::can && t != PT::canFd)
-                return fail("payload-class", "CAN message converted to payload type " + std::to_string(t));
-            const auto& c = static_cast<const ASAM::CMP::CanPayloadBase&>(pl);
-            if (c.getId() != e.id)
-                return fail("arbitration-id", "TECMP arbitration id & 0x1FFFFFFF is " + std::to_string(e.id) + ", packet reports " + std::to_string(c.getId()));
-            if (c.getDataLength() != e.data.size())
-                return fail("data-length", "TECMP data length is " + std::to_string(e.data.size()) + ", packet reports " + std::to_string(c.getDataLength()));
-            if (!e.data.empty() && (c.getData() == nullptr || memcmp(c.getData(), e.data.data(), e.data.size()) != 0))
-                return fail("data-bytes", "data bytes differ from the TECMP message");
-            return "";
-        }
-        case 1:
-        {
-            if (t != PT::lin)
-                return fail("payload-class", "LIN message converted to payload type " + std::to_string(t));
-            const auto& l = static_cast<const ASAM::CMP::LinPayload&>(pl);
-            if (l.getLinId() != e.id)
-                return fail("lin-id", "TECMP pid & 0x3F is " + std::to_string(e.id) + ", packet reports " + std::to_string(l.getLinId()));
-            if (l.getDataLength() != e.data.size())
-                return fail("data-length", "TECMP data length is " + std::to_string(e.data.size()) + ", packet reports " + std::to_string(l.getDataLength()));
-            if (!e.data.empty() && (l.getData() == nullptr || memcmp(l.getData(), e.data.data(), e.data.size()) != 0))
-                return fail("data-bytes", "data bytes differ from the TECMP message");
-            if (e.hasChecksum && l.getChecksum() != e.checksum)
-                return fail("lin-checksum", "TECMP checksum byte is " + std::to_string(e.checksum) + ", packet reports " + std::to_string(l.getChecksum()));
-            return "";
-        }
-        case 2:
-        {
-            if (t != PT::cmStatMsg)
-                return fail("payload-class", "capture module status converted to payload type " + std::to_string(t));
-            const auto& c = static_cast<const ASAM::CMP::CaptureModulePayload&>(pl);
-            if (c.getSerialNumber() != e.serial)
-                return fail("serial-number-string", "expected \"" + e.serial + "\", packet reports \"" + std::string(c.getSerialNumber()) + "\"");
-            if (c.getHardwareVersion() != e.hw)
-                return fail("hardware-version-string", "expected \"" + e.hw + "\", packet reports \"" + std::string(c.getHardwareVersion()) + "\"");
-            if (c.getSoftwareVersion() != e.sw)
-                return fail("software-version-string", "expected \"" + e.sw + "\", packet reports \"" + std::string(c.getSoftwareVersion()) + "\"");
-            return "";
-        }
-        default:
-        {
-            if (t != PT::ifStatMsg)
-                return fail("payload-class", "bus status entry converted to payload type " + std::to_string(t));
-            const auto& i = static_cast<const ASAM::CMP::InterfacePayload&>(pl);
-            if (i.getInterfaceId() != e.interfaceId)
-                return fail("entry-interface-id", "entry interface id " + std::to_string(e.interfaceId) + ", payload reports " + std::to_string(i.getInterfaceId()));
-            if (i.getMsgTotalRx() != e.messagesTotal)
-                return fail("entry-messages-total", "entry messages total " + std::to_string(e.messagesTotal) + ", payload reports " + std::to_string(i.getMsgTotalRx()));
-            if (i.getErrorsTotalRx() != e.errorsTotal)
-                return fail("entry-errors-total", "entry errors total " + std::to_string(e.errorsTotal) + ", payload reports " + std::to_string(i.getErrorsTotalRx()));
-            return "";
-        }
-    }
-}
 
 void runCase(Ctx& c, TCase& tc)
 {
